@@ -70,6 +70,20 @@ def main(argv=None) -> int:
             with open(args.replay) as f:
                 case = json.load(f)
             case["_path"] = args.replay
+            fid = case.get("unlisted_known_finding_input")
+            if fid:
+                # a discrepancy at a known finding's call site on an input that is not in the committed list:
+                # the engine's replay re-attributes it; it is a violation as long as the input stays unlisted
+                from . import core
+                core.REPLAY_KNOWN_HITS = {}
+                rc = getattr(mod, replayname)(args.pid, case)
+                hits = core.REPLAY_KNOWN_HITS.get(fid, set())
+                recorded = core.known_inputs_for(fid, args.pid, case.get("tier", "quick")) or set()
+                if rc == 0 and case.get("input_hash") in hits and case.get("input_hash") not in recorded:
+                    print(f"  reproduced: attributed to {fid}'s call site, input {case.get('input_hash')} is not in the committed list")
+                    print(f"VIOLATION property={args.pid} replay={args.replay}")
+                    return 1
+                return rc
             return getattr(mod, replayname)(args.pid, case)
         return getattr(mod, runname)(args.tier, seed)
     except SystemExit:
